@@ -111,7 +111,8 @@ def noiseRun (a : Args) : String :=
     | .error e => s!"err:{e}"
   match be with
   | .stab =>
-    match compileStab ns ne np nc det ops with
+    -- `meas=old`: graphiq before the repair of finding F2 (per-branch `apply_measurement`); default: the joint measurement
+    match (if get a "meas" = "old" then compileStabOld ns ne np nc det ops else compileStab ns ne np nc det ops) with
     | .error e => s!"err {e} trace={tr}"
     | .ok s =>
       let md := if get a "want" = "mixdm" then s!" {showMat (mixtureDensity (ne + np) s.mix).norm}" else ""
@@ -123,6 +124,19 @@ def noiseRun (a : Args) : String :=
       match s.ρ with
       | none => s!"ok trace={tr} nan=1 rec={showNats "," s.creg}"
       | some ρ => s!"ok trace={tr} nan=0 tr={ρ.trace.re} psd={b01 (isPsd ρ)} rec={showNats "," s.creg} {showMat ρ}"
+
+/-- the "probabilistic" setting of the repaired `MixedStabilizer.apply_measurement`: compile `ops` (stabilizer backend), then
+    measure qubit `q` with the scripted draw `u = np.random.random()` -/
+def noiseMeasDraw (a : Args) : String :=
+  let ops := (listOf (get a "ops")).map parseCOp
+  let ne := getNat a "ne"
+  let np := getNat a "np"
+  let nc := getNat a "nc"
+  match compileStab true ne np nc true ops with
+  | .error e => s!"err {e}"
+  | .ok s =>
+    let r := Mix.measureDraw (getNat a "q") (parseRat (get a "u")) s.mix
+    s!"ok outcome={b01 (r.2.headD false)} outs={r.2.length} branches={r.1.length} total={Mix.total r.1} mix={showMix r.1}"
 
 def noiseTrace (a : Args) : String :=
   let ops := (listOf (get a "ops")).map parseCOp
@@ -258,6 +272,7 @@ def dispatch (cmd : String) (a : Args) : Option String :=
   | "dm.stab2dm" => some (stab2dm a)
   | "noise.run" => some (noiseRun a)
   | "noise.trace" => some (noiseTrace a)
+  | "noise.measdraw" => some (noiseMeasDraw a)
   | "noise.assign" => some (noiseAssign a)
   | "noise.unwrap" => some (noiseUnwrap a)
   | "noise.identify" => some (noiseIdentify a)
